@@ -112,7 +112,10 @@ func genC01(g engine.G) *engine.Case {
 	o.AllowOnce = true
 	o.FailP = 10
 	var sc *engine.Scenario
-	switch g.Int(0, 4) {
+	switch g.Int(0, 5) {
+	case 5:
+		// labels containing "/" + type strings, and non-identifier names
+		sc = engine.GenHostile(g, o)
 	case 0:
 		sc = engine.GenUniform(g, o, true, true)
 	case 1:
